@@ -50,6 +50,8 @@ func ExportGenesis(ctx sdk.Context, k keeper.Keeper) *types.GenesisState {
 	genesis := types.DefaultGenesis()
 	genesis.Params = k.GetParams(ctx)
 
+	genesis.PromoterList = k.GetAllPromoter(ctx)
+	genesis.PromoterByAddressList = k.GetAllPromoterByAddress(ctx)
 	genesis.CampaignList = k.GetAllCampaign(ctx)
 	genesis.RewardList = k.GetAllRewards(ctx)
 	genesis.RewardByCategoryList = k.GetAllRewardsByReceiverAndCategory(ctx)
